@@ -108,6 +108,7 @@ def run_check(prop, tier=None, seed=None, replay=None):
     findings = load_findings(prop)
     counts = {"held": 0, "violated": 0, "inconclusive": 0, "crashed": 0, "skipped": 0}
     reasons = {}
+    inc_samples = []
     nontrivial = set()
     classes = {}
     probes = {}
@@ -126,6 +127,10 @@ def run_check(prop, tier=None, seed=None, replay=None):
             continue
         if st in ("inconclusive", "crashed"):
             reasons[r.get("reason", "?")] = reasons.get(r.get("reason", "?"), 0) + 1
+            if reasons[r.get("reason", "?")] <= 3:
+                inc_samples.append(
+                    {"reason": r.get("reason", "?"), "case": case.get("id"), "trace_tail": str(r.get("trace", ""))[-600:]}
+                )
         for k in r.get("nontrivial", []) or []:
             nontrivial.add(k)
         for c in r.get("classes", []) or []:
@@ -193,6 +198,7 @@ def run_check(prop, tier=None, seed=None, replay=None):
         "cases_generated": len(cases),
         "verdicts": counts,
         "inconclusive_reasons": reasons,
+        "inconclusive_samples": inc_samples[:12],
         "quantities_compared": int(compared),
         "classes_seen": classes,
         "probe_events": probes,
